@@ -127,8 +127,8 @@ func runC0102(t *testing.T) {
 	c1.Floor("handler_invocations", 500)
 	c2.Floor("start_transition_checks", 500)
 	opts := genOpts{maxTasks: kit.Scale(14, 40), waits: true, atTimes: true, failures: true}
-	nCtl := kit.Scale(450, 4000)
-	nFree := kit.Scale(40, 300)
+	nCtl := kit.Scale(1500, 4000)
+	nFree := kit.Scale(100, 300)
 	only := kit.OnlyCase()
 	for i := 0; i < nCtl+nFree; i++ {
 		if only >= 0 && i != only {
@@ -186,8 +186,8 @@ func runC03(t *testing.T) {
 	c3.Assume("handlers eventually return; user aborts are only issued on changes whose Status() is not ready, in the same lock hold (what daemon.abortChange does)")
 	c3.Floor("change_status_observations", 1000)
 	opts := genOpts{maxTasks: kit.Scale(12, 30), multiChg: true, userAborts: true, waits: true, atTimes: true, failures: true}
-	nCtl := kit.Scale(450, 4000)
-	nFree := kit.Scale(40, 300)
+	nCtl := kit.Scale(1500, 4000)
+	nFree := kit.Scale(100, 300)
 	only := kit.OnlyCase()
 	for i := 0; i < nCtl+nFree; i++ {
 		if only >= 0 && i != only {
